@@ -1,8 +1,14 @@
 """C11 — OSCORE: round trip, inner data hidden, responses bound to their request, tampering detected.
 
-Runs under /usr/bin/python3 (has `cryptography`) with the cbor2/filelock stand-ins.
+Runs under /usr/bin/python3 (has `cryptography`) with the cbor2/filelock (and, for Group OSCORE's
+pairwise mode, ge25519/fe25519) stand-ins.
 Oracles: harness.refcodec (independent RFC 7252 codec, decodes the outer wire bytes) and
-harness.oscore_c11ref (independent reading of RFC 8613 sections 3.2.1, 5.2-5.4, 6.1)."""
+harness.oscore_c11ref (independent reading of RFC 8613 sections 3.2.1, 5.2-5.4, 6.1 and of
+draft-ietf-core-oscore-groupcomm: keys, Common IV, pairwise keys, external_aad, countersignature).
+
+Two families of matching contexts: plain two-party contexts (scenario / ["scn", i]) and the members of an
+OSCORE group (g_scenario / ["grp", i]: SimpleGroupContext, its group mode and pairwise mode aspects and the
+deterministic-request aspects)."""
 
 import random
 
@@ -16,24 +22,43 @@ TECHNIQUE = (
     "decoded by an independent RFC 7252 codec (hiding) and decrypted by an independent RFC 8613 re-implementation "
     "(AAD, nonce, key derivation); every single-bit flip and a catalogue of field-level edits of OSCORE option and "
     "ciphertext, foreign-key contexts and all response/request cross pairings are pushed through unprotect and judged "
-    "by an independent parser of the compressed option"
+    "by an independent parser of the compressed option. The same for the members of OSCORE groups (SimpleGroupContext of 3-4 "
+    "members, countersignatures EdDSA/Ed25519 and ES256/P-256, AEAD and Group Encryption Algorithm chosen independently incl. "
+    "A128CBC): group mode and pairwise mode requests and responses in all four combinations plus deterministic requests, "
+    "received through the library's own context selection (verify_start + get_oscore_context_for, context_from_response, "
+    "context_for_response) and additionally by the aspect that took the genuine message; an independent Group OSCORE "
+    "re-implementation verifies countersignature, keystream, AAD, nonce and (pairwise) key derivation of every genuine message"
 )
 LEVEL_TEXT = (
     "Held (apart from the mechanism-keyed findings) on every generated case: every AEAD algorithm of oscore.algorithms (12; A128CBC is "
     "not an AEAD and is refused by protect()), all admissible sender/recipient ID length pairs, ID contexts of 0/1/8/255 bytes or none, "
     "Partial IVs of 1..5 bytes; 1.6e3 (quick) / 4.8e4 (thorough) context-pair scenarios with 1.9e6 / 5.7e7 unprotect attempts on "
-    "genuine, manipulated, cross-paired and foreign-key messages; says nothing about Group OSCORE, EDHOC, Appendix B.2, Proxy-Uri "
-    "(protect() refuses it) or messages outside the generators' classes."
+    "genuine, manipulated, cross-paired and foreign-key messages. Group OSCORE: 1.9e2 (quick) / 5.8e3 (thorough) groups of 3-4 members, "
+    "one exchange each (group->group, group->pairwise, pairwise->pairwise, pairwise->group, deterministic->group; both countersignature "
+    "algorithms; 12 AEAD algorithms x 13 group encryption algorithms incl. A128CBC at random; sender IDs of 0..7 bytes, group IDs of 0..8 bytes; "
+    "boundary sequence numbers), 2.5e5 / 7.5e6 unprotect attempts on genuine, third-member, manipulated (every bit of the OSCORE option, "
+    "selected bits of ciphertext, tag and countersignature, field edits incl. the group flag and other members' IDs), cross-paired and "
+    "foreign (other master secret / group / credential / key pair / algorithms / non-group context with the same IDs) messages. "
+    "Says nothing about EDHOC, Appendix B.2, Proxy-Uri (protect() refuses it), group rekeying, replay windows (C12) or messages outside "
+    "the generators' classes."
 )
 LEVEL_NOTE = (
     "Trusted: harness/refcodec.py, harness/oscore_c11ref.py (self-tested on RFC 8613 Appendix C vectors each run), the "
-    "cbor2 stand-in (checked by the repository's own Appendix C tests each run), the `cryptography` AEAD primitives."
+    "cbor2 stand-in (checked by the repository's own Appendix C tests each run), the `cryptography` AEAD, signature, ECDH and "
+    "AES-CBC primitives. Group part: no published vectors exist for draft-ietf-core-oscore-groupcomm, so the reference's g_* "
+    "functions are validated by their own seal/open sensitivity self-test and by agreeing with aiocoap on every genuine "
+    "AEAD-/signature-verified message (an independent construction cannot agree by accident; a disagreement is reported under "
+    "group/ref/...). The ge25519/fe25519 stand-ins (Ed25519 -> X25519 public key conversion of the pairwise mode) are checked "
+    "each run against OpenSSL's X25519 public key of the converted private key; cryptography 38 lacks `==` on EC public keys, "
+    "which SimpleGroupContext.__init__ needs for ES256 groups: harness/oscore_env.group_env() adds the upstream semantics "
+    "(equal public numbers) to the backend class and records it in the evidence (group_environment)."
 )
 RULE = (
     "a case is one unprotect() attempt (genuine, manipulated, cross-paired or under a foreign context) or one hiding / "
     "reference-decryption evaluation of a protected message; all are non-trivial (each carries a ciphertext). distinct = "
     "distinct (algorithm, sender/recipient ID lengths, ID-context class, Partial-IV length, message kind, code, inner option "
-    "number set, payload size class, manipulation kind / touched field, outcome class) signatures"
+    "number set, payload size class, manipulation kind / touched field, outcome class) signatures; for group members additionally "
+    "(mode, countersignature algorithm, group encryption algorithm, group ID length, way of context selection)"
 )
 ASSUMPTIONS = [
     "harness/oscore_c11ref.py is a correct reading of RFC 8613 sections 3.2.1, 5.2, 5.3, 5.4 and 6.1 (Appendix C vectors C.1.1, C.3.1, C.4, C.7, C.8 pass each run)",
@@ -42,11 +67,22 @@ ASSUMPTIONS = [
     "a request's Partial IV is compared byte-exact (it is the request_piv of the AAD); a response's own Partial IV only enters the nonce left-padded to 5 bytes, so a leading zero byte added to it is neutral (RFC 8613 sections 5.2, 5.4: the option value itself is not authenticated)",
     "sender ID != recipient ID within a context pair (RFC 8613 section 3.3 requires unique sender IDs)",
     "ReplayWindow is re-initialised empty before every unprotect attempt so that replay rejection never masks a verdict",
+    "members of one OSCORE group hold matching contexts: in group mode every member (also a third one) must obtain the original message, in pairwise mode only the addressed member; a third member's pairwise context is a foreign context",
+    "unprotection at a group member is judged on two paths: the library's own context selection as used by oscore_sitewrapper / transports.oscore (verify_start + get_oscore_context_for for requests, the requesting context's context_from_response for responses; 'no context' counts as rejection) and unprotect() of the aspect that unprotected the genuine message (what transports.oscore keeps using for the notifications of an observation)",
+    "harness/oscore_c11ref.py g_* is a correct reading of draft-ietf-core-oscore-groupcomm (key derivation with the Group Encryption Algorithm, Common IV of the longer nonce length used from the left, Signature Encryption Key, pairwise keys of section 2.5.1, external_aad with request_kid_context / OSCORE_option / sender_cred / gm_cred, CounterSignature0 of RFC 9338, keystream of section 4.2) and of the Request-Hash construction of draft-amsuess-core-cachable-oscore; the Pairwise Key Agreement Algorithm value in the AAD may be -27 (ECDH-SS + HKDF-256) or, for P-256 groups, the -7 aiocoap's ECDSA class carries (FIXME in the source)",
+    "a changed Group Flag must make unprotection fail (it selects group / pairwise mode); other manipulations of a group member's OSCORE option are judged like RFC 8613 ones although Group OSCORE authenticates the whole option (neutral re-encodings may be rejected or yield the original)",
+    "deterministic requests (experimental in aiocoap): only GET/FETCH are generated (others are refused by design), the outer Request-Hash option (548) is permitted in addition to the statement's list, the request it answers is identified by the Request-Hash, any change to the Request-Hash must make unprotection fail; the aspect's replay window accepts sequence number 0 only, so a ReplayError counts as rejection there",
+    "sender IDs of group members are admissible for both the AEAD and the Group Encryption Algorithm (at most nonce length - 6 bytes of the shorter nonce)",
 ]
 REQUIRED_MONITORS = {
     "rt_request": 100, "rt_response_reuse": 100, "rt_response_ownpiv": 100, "hide": 300, "ref_decrypt": 300,
     "binding": 500, "tamper_bitflip_option": 5000, "tamper_bitflip_ciphertext": 20000, "tamper_field": 5000,
     "foreign_context": 1000, "fixed_witnesses": 4,
+    # members of OSCORE groups (quick reaches about 5e2 / 5e2 / 5e2 / 5e2 / 6e4 / 7e4 / 7e4 / 6e3 / 7e3 / 2.5e3; thorough 30 times that)
+    "group_roundtrip": 300, "group_hide": 300, "group_ref_decrypt": 300, "group_third_member": 300,
+    "group_tamper_bitflip_option": 20000, "group_tamper_bitflip_payload": 20000, "group_tamper_field": 20000,
+    "group_foreign_context": 2000, "group_binding": 3000, "group_binding_control": 1000,
+    "group_mode_group": 100, "group_mode_pairwise": 100, "group_mode_deterministic": 20, "group_sigalg_EdDSA": 100, "group_sigalg_ES256": 100,
 }
 EXHAUSTIVE = {
     "single_bit_flip_option": "every bit of every OSCORE option value up to 40 bytes (requests, responses with own Partial IV); for longer ones (255-byte ID context) every bit of the first 8 bytes (flag, Partial IV, s) and last 9 bytes (kid) plus 24 random bits",
@@ -54,6 +90,9 @@ EXHAUSTIVE = {
     "truncation": "every proper prefix of every option value and of every ciphertext up to 48 bytes",
     "pairing": "all ordered pairs of distinct requests in a pool of 2 clients x 2 Partial IVs, both nonce modes",
     "alg_x_seq_x_idctx": "12 AEAD algorithms x 9 boundary sequence numbers x 4 ID-context classes enumerated over the global scenario index",
+    "group_single_bit_flip_option": "every bit of every OSCORE option value of every group member's message (at most 23 bytes), through both ways of context selection",
+    "group_flow_x_sigalg": "5 exchanges (group/pairwise/deterministic request x group/pairwise response) x 2 countersignature algorithms enumerated over the global group scenario index",
+    "group_pairing": "all ordered pairs of distinct requests in a pool of 2 members x 2 Partial IVs (3 requests for deterministic ones), responses in group and pairwise mode, both nonce modes",
 }
 WORKER_TIMEOUT = {"quick": 600, "thorough": 7200}
 
@@ -72,12 +111,17 @@ STRING, UINT, OPAQUE, BLOCK, EMPTY = "s", "u", "o", "b", "e"
 REQ_OPTS = {1: OPAQUE, 4: OPAQUE, 5: EMPTY, 11: STRING, 12: UINT, 15: STRING, 17: UINT, 23: BLOCK, 27: BLOCK, 28: UINT, 60: UINT, 252: OPAQUE, 258: UINT, 292: OPAQUE, 65000: OPAQUE, 2049: OPAQUE}
 RESP_OPTS = {4: OPAQUE, 8: STRING, 12: UINT, 14: UINT, 20: STRING, 23: BLOCK, 27: BLOCK, 28: UINT, 60: UINT, 252: OPAQUE, 65000: OPAQUE}
 REPEATABLE = {1, 4, 8, 11, 15, 20, 292}
+# (request mode, response mode) of the exchanges between two members of an OSCORE group
+# "deterministic": a request of the group's deterministic client (for_sending_deterministic_requests; experimental in aiocoap)
+GROUP_FLOWS = [("group", "group"), ("group", "pairwise"), ("pairwise", "pairwise"), ("pairwise", "group"), ("deterministic", "group")]
+REQUEST_HASH = 548
 
 
 def plan(tier, seed):
     n = 16
     per = {"quick": 100, "thorough": 3000}[tier]
-    return [{"name": "c11-%d" % i, "seed": seed * 1000 + i, "n": per, "index": i, "of": n, "tier": tier} for i in range(n)]
+    gper = {"quick": 12, "thorough": 360}[tier]  # group scenarios (three members or more, one exchange each)
+    return [{"name": "c11-%d" % i, "seed": seed * 1000 + i, "n": per, "gn": gper, "index": i, "of": n, "tier": tier} for i in range(n)]
 
 
 # ------------------------------------------------------------------------------ generators
@@ -207,18 +251,22 @@ def size_class(n):
     return 9
 
 
-def judge(ref, recv_recipient_id, recv_id_context, is_request, orig, orig_ct, optv, ct):
+def judge(ref, recv_recipient_id, recv_id_context, is_request, orig, orig_ct, optv, ct, group=False):
     """Independent expectation for unprotect(optv, ct) at a receiver whose Recipient ID /
     ID Context are given, when (orig, orig_ct) is a genuine message for that receiver.
+    group=True: the message travels between members of an OSCORE group; the Group Flag is a
+    legitimate flag bit whose value selects group / pairwise mode, so changing it must fail.
     -> ("must_fail" | "neutral", reason)"""
     if ct != orig_ct:
         return "must_fail", "ciphertext-changed"
     if optv is None:
         return "must_fail", "option-removed"
     try:
-        o = ref.parse_option(optv)
+        o = ref.parse_option(optv, group=group)
     except ref.RefError as e:
         return "must_fail", "malformed-" + "".join(c if c.isalnum() else "-" for c in str(e).lower()).replace("--", "-").strip("-")
+    if group and (o.flag ^ orig.flag) & ref.GROUP_FLAG:
+        return "must_fail", "group-flag-changed"
     if is_request:
         # the request's Partial IV bytes are the request_piv of the AAD (section 5.4): exact bytes matter
         if o.piv != orig.piv:
@@ -229,7 +277,7 @@ def judge(ref, recv_recipient_id, recv_id_context, is_request, orig, orig_ct, op
         if (o.piv is None) != (orig.piv is None) or (o.piv is not None and int.from_bytes(o.piv, "big") != int.from_bytes(orig.piv, "big")):
             return "must_fail", "piv-changed"
     if o.kid is None:
-        if is_request and orig.kid:
+        if is_request and (orig.kid or (group and orig.kid is not None)):
             return "must_fail", "request-kid-removed"
     elif o.kid != recv_recipient_id:
         return "must_fail", "kid-changed"
@@ -536,6 +584,31 @@ class Engine:
             "message": label,
         }
 
+    # -- (c) hiding: what the outer message may show ------------------------------------------------
+    def hiding(self, monitor, prefix, where, spec, wire, base, is_request, case, extra_outer=()):
+        """Judged on the wire bytes by the independent codec. -> False when there is not exactly one OSCORE option."""
+        rep, rc = self.rep, self.rc
+        rep.monitor(monitor)
+        ok_codes = OUTER_REQ_CODES if is_request else OUTER_RESP_CODES
+        if base.code not in ok_codes:
+            rep.violation(prefix + "outer-code-not-fixed", "outer code %s is not one of the fixed outer codes" % rc.code_str(base.code), dict(where, wire=wire[:200].hex()), case)
+        n9 = 0
+        for n, v in base.options:
+            if n == 9:
+                n9 += 1
+            if n not in ALLOWED_OUTER and n not in extra_outer:
+                rep.violation(prefix + "outer-option-%d" % n, "outer message carries option %d, which is none of OSCORE / host / proxy routing / Observe" % n, dict(where, wire=wire[:200].hex(), value=v[:40].hex()), case)
+        if n9 != 1:
+            rep.violation(prefix + "oscore-option-count", "outer message carries %d OSCORE options" % n9, dict(where, wire=wire[:200].hex()), case)
+            return False
+        for mk in spec["markers"]:
+            if mk in wire:
+                rep.violation(prefix + "marker-visible-in-outer-message", "a marker planted in an inner (Class E) field is readable in the outer wire bytes", dict(where, marker=mk.decode("latin1"), wire=wire[:300].hex()), case)
+        for n, _v in spec["outer"]:
+            if n not in [x for x, _ in base.options]:
+                rep.count("class_u_option_not_carried_outer/%d" % n)
+        return True
+
     # -- protect + genuine path (monitors a, b, c and the reference decryption) -----------------
     def protect_and_check(self, sc, label, sender, spec, protect_rid, receiver, receiver_rid, case, kid_context=True, mtype=0):
         rep, rc, ref = self.rep, self.rc, self.ref
@@ -559,25 +632,8 @@ class Engine:
         expected = self.expected_inner(spec)
         optset = tuple(sorted({n for n, _v in expected[1]}))
         # ---- (c) hiding, judged on the wire bytes by the independent codec
-        rep.monitor("hide")
-        ok_codes = OUTER_REQ_CODES if is_request else OUTER_RESP_CODES
-        if base.code not in ok_codes:
-            rep.violation("hide/outer-code-not-fixed", "outer code %s is not one of the fixed outer codes" % rc.code_str(base.code), dict(where, wire=wire[:200].hex()), case)
-        n9 = 0
-        for n, v in base.options:
-            if n == 9:
-                n9 += 1
-            if n not in ALLOWED_OUTER:
-                rep.violation("hide/outer-option-%d" % n, "outer message carries option %d, which is none of OSCORE / host / proxy routing / Observe" % n, dict(where, wire=wire[:200].hex(), value=v[:40].hex()), case)
-        if n9 != 1:
-            rep.violation("hide/oscore-option-count", "outer message carries %d OSCORE options" % n9, dict(where, wire=wire[:200].hex()), case)
+        if not self.hiding("hide", "hide/", where, spec, wire, base, is_request, case):
             return None
-        for mk in spec["markers"]:
-            if mk in wire:
-                rep.violation("hide/marker-visible-in-outer-message", "a marker planted in an inner (Class E) field is readable in the outer wire bytes", dict(where, marker=mk.decode("latin1"), wire=wire[:300].hex()), case)
-        for n, _v in spec["outer"]:
-            if n not in [x for x, _ in base.options]:
-                rep.count("class_u_option_not_carried_outer/%d" % n)
         optv = rc.opt1(base, 9)
         ct = base.payload
         # ---- reference: the RFC's construction must open what aiocoap sealed
@@ -900,6 +956,831 @@ class Engine:
             self.foreign(sc, t, r, case)
         self.binding(sc, r, case)
 
+    # ================================================================================ Group OSCORE
+    # Members of an OSCORE group hold matching contexts too (SimpleGroupContext and its aspects): the
+    # same four clauses are judged for group mode (countersigned) and pairwise mode messages.
+
+    def g_probe(self, genv):
+        """Which countersignature algorithms this environment can run (one library-generated key pair each)."""
+        o, rep, ref = self.o, self.rep, self.ref
+        self.gkinds, self.gsig, self.gss, self.genc_extra = [], {}, {}, []
+        want = {
+            "EdDSA": ("EdDSA on Ed25519", "ECDH-SS + HKDF-256", genv["ed25519"] and genv["x25519_conversion"]),
+            "ES256": ("ECDSA w/ SHA-256 on P-256", None, genv["p256"]),
+        }
+        for kind, (signame, ssname, usable) in want.items():
+            if not usable:
+                rep.seen("group_sigalgs_unusable", "%s: environment" % kind)
+                continue
+            alg = o.algorithms_countersign.get(signame)
+            ss = o.algorithms_staticstatic.get(ssname) if ssname else alg
+            if alg is None or not isinstance(ss, o.AlgorithmStaticStatic):
+                rep.seen("group_sigalgs_unusable", "%s: not in oscore.algorithms_countersign / algorithms_staticstatic" % kind)
+                continue
+            if (alg.value, alg.signature_length) != ref.SIGN_ALGS[kind][:2]:
+                rep.violation("group/ref/algorithm-parameters-differ", "countersignature algorithm entry differs from the COSE registry", {"alg": signame, "aiocoap": [alg.value, alg.signature_length], "cose": list(ref.SIGN_ALGS[kind][:2])}, ["probe"])
+                continue
+            try:
+                priv, ccs = alg.generate_with_ccs()
+                if alg.from_kccs(ccs) != alg.public_from_private(priv):
+                    rep.count("group_generate_with_ccs_public_key_differs/" + kind)
+                sig = alg.sign(b"body", b"aad", priv)
+                alg.verify(sig, b"body", b"aad", alg.public_from_private(priv))
+            except Exception as e:
+                rep.seen("group_sigalgs_unusable", "%s: %s" % (kind, type(e).__name__))
+                continue
+            rep.seen("group_sigalgs_exercised", signame)
+            self.gkinds.append(kind)
+            self.gsig[kind], self.gss[kind] = alg, ss
+        cbc = o.algorithms.get("A128CBC")
+        if cbc is not None and "A128CBC" in ref.ENC_ALGS:
+            try:
+                assert cbc.decrypt(cbc.encrypt(b"probe", b"", b"\x01" * 16, b"\x02" * 16), b"", b"\x01" * 16, b"\x02" * 16) == b"probe"
+                assert (cbc.value, cbc.key_bytes, cbc.tag_bytes, cbc.iv_bytes) == ref.ENC_ALGS["A128CBC"]
+                self.genc_extra.append("A128CBC")
+            except Exception as e:
+                rep.seen("algorithms_unsupported_by_cryptography", "A128CBC: %s" % type(e).__name__)
+
+    def g_keypair(self, r, kind, lib_generated=False):
+        ref = self.ref
+        if lib_generated:
+            priv, cred = self.gsig[kind].generate_with_ccs()
+            refpriv = priv if kind == "EdDSA" else priv.private_numbers().private_value
+            return {"priv": priv, "refpriv": refpriv, "pub": ref.g_public(kind, refpriv), "cred": cred, "origin": "generate_with_ccs"}
+        if kind == "EdDSA":
+            refpriv = priv = rbytes(r, 32)
+        else:
+            refpriv = r.getrandbits(256) % (ref.P256_ORDER - 1) + 1
+            priv = ref._p256_private(refpriv)
+        pub = ref.g_public(kind, refpriv)
+        return {"priv": priv, "refpriv": refpriv, "pub": pub, "cred": ref.g_ccs(kind, pub, r.choice([None, None, "", marker(r, "m")])), "origin": "seeded"}
+
+    def g_group(self, sc, i, gp=None, creds=None, me=None):
+        """The SimpleGroupContext of member i. gp / creds ({member index: credential}) / me (key pair) override for foreign contexts."""
+        o = self.o
+        gp = gp or sc["gp"]
+        kind, members = sc["kind"], sc["members"]
+        own = me or members[i]
+        peers = {m["id"]: (creds or {}).get(j, m["cred"]) for j, m in enumerate(members) if j != i}
+        if sc.get("det") is not None:
+            peers[sc["det"]["id"]] = o.DETERMINISTIC_KEY
+        return o.SimpleGroupContext(
+            o.algorithms[gp.alg_aead], o.hashfunctions[gp.hashname], self.gsig[kind], o.algorithms[gp.alg_group_enc], self.gss[kind],
+            gp.group_id, gp.secret, gp.salt, members[i]["id"], own["priv"], own["cred"], peers, gp.gm_cred,
+        )
+
+    def g_aspect(self, G, peer_id, mode):
+        """The receiving aspect of group context G for messages of `peer_id` in the given mode, through the public API."""
+        o = self.o
+        if mode == "pairwise":
+            return G.pairwise_for(peer_id)
+        if mode == "deterministic":
+            return G.get_oscore_context_for({o.COSE_KID: peer_id, o.COSE_KID_CONTEXT: G.id_context})
+        return G.context_from_response({o.COSE_KID: peer_id, o.COSE_COUNTERSIGNATURE0: o.PRESENT_BUT_NO_VALUE_YET})
+
+    def g_describe(self, sc, label):
+        gp = sc["gp"]
+        hx = lambda b: None if b is None else b.hex()
+        return {
+            "group": {"alg_aead": gp.alg_aead, "alg_group_enc": gp.alg_group_enc, "alg_signature": gp.alg_sign, "hash": gp.hashname, "master_secret": gp.secret.hex(),
+                      "master_salt": hx(gp.salt), "group_id": gp.group_id.hex(), "gm_cred": gp.gm_cred.hex()},
+            "members": [{"sender_id": m["id"].hex(), "credential": m["cred"].hex(), "private_key": m["refpriv"].hex() if isinstance(m["refpriv"], bytes) else "%x" % m["refpriv"], "key_origin": m["origin"]} for m in sc["members"]],
+            "flow": "%s request -> %s response" % sc["flow"], "client": sc["ci"], "server": sc["si"], "third": sc["ti"], "message": label,
+            "deterministic_client_id": None if sc.get("det") is None else sc["det"]["id"].hex(),
+        }
+
+    def g_wire(self, base, optv, ct):
+        rc = self.rc
+        options = tuple((n, v) for n, v in base.options if n != 9)
+        if optv is not None:
+            options += ((9, optv),)
+        wire = rc.encode(rc.Msg(base.type, base.code, base.mid, base.token, options, ct))
+        try:
+            return self.Message.decode(wire)
+        except Exception as e:  # the harness built something the codec refuses: not an OSCORE verdict
+            self.rep.count("harness_wire_not_decodable/" + type(e).__name__)
+            return None
+
+    def g_run(self, t, m, how, ctx=None):
+        """One unprotection of the decoded message m at the receiver of target t.
+        how: "dispatch" = the library's own context selection (verify_start + get_oscore_context_for for
+        requests, the requesting context's context_from_response for responses), "direct" = the aspect that
+        unprotected the genuine message (what transports/oscore.py keeps using for later notifications),
+        "given" = ctx (third member / foreign context).  -> (outcome, detail, ctx, request id)"""
+        o = self.o
+        for G in t["reset"]:
+            for w in G.recipient_replay_windows.values():
+                w.initialize_empty()
+        rid = self.copy.copy(t["receiver_rid"]) if t["receiver_rid"] is not None else None
+        try:
+            if how == "direct":
+                ctx = t["receiver"]
+            elif how == "dispatch":
+                bag = o.verify_start(m)
+                if t["is_request"]:
+                    ctx = t["recv_group"].get_oscore_context_for(bag)
+                    if ctx is None:
+                        return "rejected", "no-context", None, None
+                else:
+                    ctx = t["reqctx"].context_from_response(bag)
+            if isinstance(ctx, self.MemCtx):
+                ctx.recipient_replay_window.initialize_empty()
+            inner, rid_out = ctx.unprotect(m, rid)
+        except o.ReplayError as e:
+            # the replay window of a deterministic request's aspect accepts sequence number 0 only and cannot be re-initialised
+            if not (t.get("mode") == "deterministic" and t["is_request"]):
+                self.rep.inconc("a group message was rejected as a replay although the windows were re-initialised: %r" % (e,))
+            return "rejected", e, ctx, None
+        except o.ProtectionInvalid as e:
+            return "rejected", e, ctx, None
+        except o.NotAProtectedMessage as e:
+            return "not-protected", e, ctx, None
+        except Exception as e:
+            return "escape", e, ctx, None
+        return "accepted", self.fields(inner), ctx, rid_out
+
+    def g_escape_mechanism(self, exc, t, optv, how, ctx, m_options=()):
+        ref = self.ref
+        name = type(exc).__name__
+        f = optv[0] if optv else 0
+        cls = type(ctx).__name__.strip("_") if ctx is not None else "no-context"
+        try:
+            o = ref.parse_option(optv, group=True) if optv is not None else None
+        except ref.RefError:
+            o = None
+        peers = ({m["id"] for m in t["members"]} | {t.get("det_id")}) - {t["recv_sender_id"]}
+        if name == "KeyError" and o is not None and o.kid is not None and o.kid not in peers:
+            return "kid-not-a-peer-of-the-receiver/%s" % how
+        if t.get("det_id") is not None and o is not None and o.kid == t["det_id"] and f & 0x20 and cls == "GroupContextAspect":
+            return "group-flag-with-kid-of-the-deterministic-client/%s" % how
+        if name == "AttributeError" and f & 0x20 and not t["group_mode"]:
+            return "group-flag-on-%s" % cls
+        if how == "direct" and t["group_mode"] and optv is not None and not f & 0x20:
+            return "group-flag-cleared-on-%s" % cls
+        if t["mode"] == "deterministic" and t["is_request"] and REQUEST_HASH not in [n for n, _v in m_options]:
+            return "request-hash-missing"
+        tb = exc.__traceback__
+        fn = "unknown"
+        while tb is not None:
+            co = tb.tb_frame.f_code
+            if "aiocoap" in co.co_filename:
+                fn = co.co_name
+            tb = tb.tb_next
+        return "in-%s/%s" % (fn, cls)
+
+    # -- protect + genuine path for group members ------------------------------------------------------
+    def g_protect_and_check(self, sc, label, mode, sender_ctx, si, ri, spec, protect_rid, receiver_rid, reqctx, recv_group, case, mtype=0):
+        """si / ri: member indexes of sender and receiver; reqctx: for a response, the context the receiver had
+        protected its request with; recv_group: the receiver's SimpleGroupContext."""
+        rep, rc, ref = self.rep, self.rc, self.ref
+        is_request = protect_rid is None
+        gp, kind, members = sc["gp"], sc["kind"], sc["members"]
+        S, R = (members[si] if isinstance(si, int) else si), members[ri]  # si: a member index or the deterministic client
+        where = self.g_describe(sc, "%s (%s mode)" % (label, mode))
+        try:
+            msg = self.build(spec)
+        except Exception as e:
+            rep.count("harness_build_failed/" + type(e).__name__)
+            return None
+        try:
+            if is_request:
+                outer, rid_out = sender_ctx.protect(msg)
+            else:
+                outer, rid_out = sender_ctx.protect(msg, protect_rid)
+            wire = self.to_wire(outer, mtype, sc["mid"], sc["token"])
+        except Exception as e:
+            rep.violation("group/roundtrip/protect-raises/" + type(e).__name__, "protect()/encode() raised %s for an ordinary %s in %s mode" % (type(e).__name__, label, mode), dict(where, spec=repr(spec)[:600], tb=rep.exception_witness(e)), case)
+            return None
+        base = rc.parse(wire)
+        expected = self.expected_inner(spec)
+        optset = tuple(sorted({n for n, _v in expected[1]}))
+        # ---- hiding
+        # (the Request-Hash of a deterministic request is an outer option by construction: a hash over key, AAD and plaintext)
+        if not self.hiding("group_hide", "group/hide/", where, spec, wire, base, is_request, case, extra_outer=(REQUEST_HASH,) if mode == "deterministic" else ()):
+            return None
+        optv, ct = rc.opt1(base, 9), base.payload
+        # ---- independent reading of the option and of the protection
+        rep.monitor("group_ref_decrypt")
+        try:
+            po = ref.parse_option(optv, group=True)
+        except ref.RefError as e:
+            rep.violation("group/ref/option-undecodable", "protect() produced an OSCORE option that cannot be decoded: %s" % e, dict(where, option=optv.hex()), case)
+            return None
+        if bool(po.flag & ref.GROUP_FLAG) != (mode == "group"):
+            rep.violation("group/ref/group-flag-unexpected", "a %s mode %s has the group flag %s" % (mode, label, "set" if po.flag & ref.GROUP_FLAG else "clear"), dict(where, option=optv.hex()), case)
+        if is_request:
+            if po.kid != S["id"]:
+                rep.violation("group/ref/request-kid-not-sender-id", "request carries kid %r" % (po.kid,), dict(where, option=optv.hex()), case)
+            if po.kid_context != gp.group_id:
+                rep.violation("group/ref/request-kid-context-not-group-id", "request carries kid context %r" % (po.kid_context,), dict(where, option=optv.hex()), case)
+        req_kid, req_piv = (S["id"], po.piv) if is_request else (protect_rid.kid, protect_rid.partial_iv)
+        nonce_id, nonce_piv = (S["id"], po.piv) if po.piv is not None else (req_kid, req_piv)
+        pt, why, used = None, "no Partial IV", None
+        rh = getattr(protect_rid, "request_hash", None)  # a response to a deterministic request carries its hash as Class I option in the AAD
+        class_i = ref.class_i_request_hash(rh) if rh is not None else b""
+        if nonce_piv is not None:
+            for pv in sc["pairwise_values"]:
+                try:
+                    if mode == "group":
+                        pt, why = ref.g_open_group(gp, pv, is_request, S["id"], S["cred"], S["pub"], nonce_id, nonce_piv, req_kid, req_piv, optv, ct, class_i)
+                    elif mode == "deterministic":
+                        hashes = [v for n, v in base.options if n == REQUEST_HASH]
+                        if len(hashes) != 1:
+                            why = "%d Request-Hash options" % len(hashes)
+                            break
+                        pt, why = ref.g_open_deterministic(gp, pv, S["id"], nonce_piv, optv, hashes[0], ct)
+                    else:
+                        shared = ref.g_shared_secret(kind, R["refpriv"], S["pub"])
+                        pt, why = ref.g_open_pairwise(gp, pv, S["id"], S["cred"], R["cred"], shared, nonce_id, nonce_piv, req_kid, req_piv, optv, ct)
+                except ref.RefError as e:
+                    why = str(e)
+                    rep.count("ref_inadmissible/" + why[:40])
+                if pt is not None:
+                    used = pv
+                    break
+        if pt is None:
+            rep.violation("group/ref/%s-mode-%s-not-openable-by-draft-construction" % (mode, "request" if is_request else "response"), "the message does not verify under keys / nonce / AAD / countersignature built independently from draft-ietf-core-oscore-groupcomm: %s" % why,
+                          dict(where, option=optv.hex(), payload=ct[:120].hex(), payload_len=len(ct), request_kid=req_kid.hex(), request_piv=None if req_piv is None else req_piv.hex()), case)
+        else:
+            rep.count("group_ref_pairwise_alg_value/%s/%d" % (kind, used))
+            try:
+                got_pt = ref.split_plaintext(pt)
+                got_pt = (got_pt[0], list(got_pt[1]), got_pt[2])
+            except Exception as e:
+                got_pt = ("unparsable", repr(e))
+            if got_pt != expected:
+                rep.violation("group/ref/plaintext-differs", "the decrypted plaintext is not code + Class E options + payload of the original", dict(where, want=repr(expected)[:500], got=repr(got_pt)[:500]), case)
+        # ---- round trip through the wire and through the library's own context selection
+        base_sig = ("group", label, mode, kind, gp.alg_aead, gp.alg_group_enc, len(S["id"]), len(R["id"]), len(gp.group_id), piv_len_class(po), spec["code"], optset, size_class(len(spec["payload"])))
+        t = {
+            "label": label, "is_request": is_request, "group_mode": mode == "group", "mode": mode, "wire": wire, "base": base, "opt": po, "optv": optv, "ct": ct,
+            "receiver": None, "receiver_rid": receiver_rid, "reqctx": reqctx, "recv_group": recv_group, "reset": [recv_group], "genuine": None, "sig": base_sig,
+            "rid_out": rid_out, "rid_in": None, "where": where, "spec": spec, "request_piv": req_piv, "sender": sender_ctx, "members": members,
+            "recv_recipient_id": S["id"], "recv_sender_id": R["id"], "recv_id_context": gp.group_id, "si": si, "ri": ri,
+            "siglen": ref.SIGN_ALGS[kind][1] if mode == "group" else 0, "tag": ref.ENC_ALGS[gp.alg_group_enc if mode == "group" else gp.alg_aead][2],
+            "group_enc_tag": ref.ENC_ALGS[gp.alg_group_enc][2], "aead_tag": ref.ENC_ALGS[gp.alg_aead][2], "det_id": None if sc.get("det") is None else sc["det"]["id"],
+        }
+        m = self.g_wire(base, optv, ct)
+        if m is None:
+            rep.violation("group/roundtrip/outer-not-decodable", "Message.decode refuses the encoded outer message", dict(where, wire=wire[:300].hex()), case)
+            return None
+        outcome, detail, ctx, rid_in = self.g_run(t, m, "dispatch")
+        rep.monitor("group_roundtrip")
+        rep.monitor("group_mode_" + mode)
+        rep.monitor("group_sigalg_" + kind)
+        rep.case((base_sig, "genuine", outcome if outcome != "accepted" else ("ok" if detail == expected else "differs")), nontrivial=True)
+        if outcome != "accepted":
+            what = "no context found by get_oscore_context_for" if detail == "no-context" else repr(detail)
+            key = "group/roundtrip/%s-mode-%s-not-unprotected/%s" % (mode, label, type(detail).__name__ if isinstance(detail, BaseException) else "no-context")
+            if mode == "group" and "too short" in str(detail) and t["group_enc_tag"] < t["aead_tag"] and t["group_enc_tag"] + 1 <= len(ct) - t["siglen"] < t["aead_tag"] + 1:
+                key = "group/roundtrip/group-mode-message-rejected-as-too-short-for-the-tag-of-alg_aead"
+            rep.violation(key,
+                          "a genuine %s in %s mode is not unprotected by the addressed member: %s" % (label, mode, what),
+                          dict(where, option=optv.hex(), payload=ct[:120].hex(), tb=rep.exception_witness(detail) if isinstance(detail, BaseException) else None), case)
+            return t
+        want_cls = {"group": "_GroupContextAspect", "pairwise": "_PairwiseContextAspect", "deterministic": "_DeterministicUnprotectProtoAspect"}[mode]
+        if type(ctx).__name__ != want_cls:
+            rep.count("group_receiving_context_class/%s/%s" % (mode, type(ctx).__name__))
+        t["receiver"], t["rid_in"] = ctx, rid_in
+        if detail != expected:
+            diff = "code" if detail[0] != expected[0] else ("payload" if detail[2] != expected[2] else "options")
+            rep.violation("group/roundtrip/%s-mode-%s-%s-differ" % (mode, label, diff), "unprotect(protect(m)) differs from m in %s" % diff, dict(where, want=repr(expected)[:600], got=repr(detail)[:600]), case)
+            return t
+        t["genuine"] = detail
+        return t
+
+    # -- tampering with group messages ---------------------------------------------------------------------
+    def g_settle(self, t, family, manip, field, optv, ct, case, hows=("direct", "dispatch"), base=None):
+        """base: the outer message with a manipulated Request-Hash option (deterministic requests only)"""
+        rep, ref = self.rep, self.ref
+        if optv == t["optv"] and ct == t["ct"] and base is None:
+            return
+        verdict, reason = judge(ref, t["recv_recipient_id"], t["recv_id_context"], t["is_request"], t["opt"], t["ct"], optv, ct, group=True)
+        if base is not None:
+            verdict, reason = "must_fail", "request-hash-changed"
+        m = self.g_wire(base or t["base"], optv, ct)
+        if m is None:
+            return
+        for how in hows:
+            outcome, detail, ctx, _rid = self.g_run(t, m, how)
+            rep.monitor(family)
+            rep.case((t["sig"], manip, field, verdict, outcome, how), nontrivial=True)
+
+            def wit(**kw):
+                w = dict(t["where"], manipulation=manip, field=field, unprotected_through=how, receiving_context=type(ctx).__name__, expectation=verdict + ": " + reason, genuine_option=t["optv"].hex(),
+                         genuine_payload=t["ct"][:160].hex(), genuine_payload_len=len(t["ct"]), option=None if optv is None else optv.hex(), payload=ct[:160].hex(), payload_len=len(ct),
+                         request_kid=None if t["receiver_rid"] is None else t["receiver_rid"].kid.hex(), request_piv=None if t["receiver_rid"] is None else t["receiver_rid"].partial_iv.hex())
+                w.update(kw)
+                return w
+
+            if outcome == "escape":
+                mech = self.g_escape_mechanism(detail, t, optv, how, ctx, (base or t["base"]).options)
+                rep.violation("group/tamper/escape-%s/%s" % (type(detail).__name__, mech), "unprotecting a manipulated %s mode %s let %s escape instead of a protection error" % (t["mode"], t["label"], type(detail).__name__), wit(exc=repr(detail), tb=rep.exception_witness(detail)), case)
+                continue
+            if outcome == "rejected":
+                rep.count("rejected/" + (type(detail).__name__ if isinstance(detail, BaseException) else str(detail)))
+                continue
+            if outcome == "not-protected":
+                if optv is not None:
+                    rep.violation("group/tamper/not-a-protected-message-with-option-present", "NotAProtectedMessage although an OSCORE option is present", wit(), case)
+                continue
+            same = detail == t["genuine"]
+            if verdict == "must_fail":
+                rep.violation("group/tamper/accepted-%s/%s/%s-mode" % ("original" if same else "DIFFERENT-MESSAGE", reason, t["mode"]), "unprotection yielded %s for a %s mode %s whose %s" % ("the original message" if same else "a different message", t["mode"], t["label"], reason), wit(got=repr(detail)[:400]), case)
+            elif not same:
+                rep.violation("group/tamper/neutral-manipulation-yields-different-message", "a semantically neutral re-encoding of the option made unprotection return a different message", wit(got=repr(detail)[:400], want=repr(t["genuine"])[:400]), case)
+            else:
+                rep.count("group_neutral_accepted/" + manip)
+
+    def g_payload_bits(self, r, t):
+        """Selected single-bit positions of ciphertext | tag | encrypted countersignature -> [(bit, region)]"""
+        n, siglen, tag = len(t["ct"]), t["siglen"], t["tag"]
+        body_end = n - siglen
+        regions = {}
+        for i in range(min(3, body_end)):
+            regions[i] = "body"
+        for i in range(max(0, body_end - tag), body_end):
+            if i < body_end - tag + 2 or i >= body_end - 2:
+                regions[i] = "tag"
+        if tag == 0 and body_end:
+            regions[body_end - 1] = "body-last-block"
+        if siglen:
+            for i in (0, 1, 2, siglen // 2 - 1, siglen // 2, siglen - 3, siglen - 2, siglen - 1):
+                regions[body_end + i] = "signature"
+        out = [(i * 8 + b, reg) for i, reg in sorted(regions.items()) for b in range(8)]
+        seen = {x for x, _ in out}
+        for _ in range(32):
+            bit = r.randrange(n * 8)
+            if bit not in seen:
+                seen.add(bit)
+                out.append((bit, "signature" if bit // 8 >= body_end else ("tag" if bit // 8 >= body_end - tag else "body")))
+        return out
+
+    def g_option_edits(self, r, t, sc):
+        """Group-specific field edits on top of option_edits()."""
+        ref = self.ref
+        po = t["opt"]
+        gf = po.flag & ref.GROUP_FLAG
+
+        class B:  # option_edits() composes through .build_option; keep this message's group flag
+            @staticmethod
+            def build_option(piv=None, kid_context=None, kid=None, flag_or=0, n=None):
+                return ref.build_option(piv, kid_context, kid, flag_or=flag_or | gf, n=n)
+
+        maxid = sc["maxid"]
+        for name, ov in option_edits(r, B, po, t["recv_recipient_id"], t["recv_sender_id"], t["recv_id_context"], t["request_piv"] if not t["is_request"] else None, maxid):
+            yield name, ov, t["ct"]
+        optv, ct = t["optv"], t["ct"]
+        toggled = bytes([optv[0] ^ ref.GROUP_FLAG]) + optv[1:]
+        if gf:
+            yield "group-flag-cleared", toggled, ct
+            yield "group-flag-cleared-signature-stripped", toggled, ct[: -t["siglen"]]
+        else:
+            yield "group-flag-set", toggled, ct
+            yield "group-flag-set-zero-signature-appended", toggled, ct + b"\0" * ref.SIGN_ALGS[sc["kind"]][1]
+            yield "group-flag-set-random-signature-appended", toggled, ct + rbytes(r, ref.SIGN_ALGS[sc["kind"]][1])
+        others = [m["id"] for m in sc["members"] if m["id"] not in (t["recv_recipient_id"], t["recv_sender_id"])]
+        for oid in others[:2]:
+            yield "kid-replaced-by-other-member", B.build_option(po.piv, po.kid_context, oid), ct
+        yield "kid-replaced-by-receivers-own-id", B.build_option(po.piv, po.kid_context, t["recv_sender_id"]), ct
+        known = {m["id"] for m in sc["members"]}
+        for _ in range(20):
+            nid = rbytes(r, r.randrange(0, maxid + 1))
+            if nid not in known:
+                yield "kid-replaced-by-non-member", B.build_option(po.piv, po.kid_context, nid), ct
+                break
+        if po.kid_context is not None:
+            yield "kidctx-replaced-by-other-group", B.build_option(po.piv, sc["other_group_id"], po.kid), ct
+
+    def g_payload_edits(self, r, t, other_ct):
+        ct, siglen, tag = t["ct"], t["siglen"], t["tag"]
+        for name, c2 in ciphertext_edits(r, ct, siglen or max(tag, 1), other_ct):
+            yield name, c2
+        if siglen:
+            body, sig = ct[:-siglen], ct[-siglen:]
+            yield "signature-zeroed", body + b"\0" * siglen
+            yield "signature-random", body + rbytes(r, siglen)
+            yield "signature-removed", body
+            yield "signature-only", sig
+            yield "signature-doubled", ct + sig
+            yield "signature-halves-swapped", body + sig[siglen // 2 :] + sig[: siglen // 2]
+            yield "signature-shortened-by-one", ct[:-1]
+            yield "body-byte-inserted-before-signature", body + b"\0" + sig
+            yield "body-last-byte-dropped", body[:-1] + sig
+            if other_ct is not None and len(other_ct) > siglen and other_ct != ct:
+                yield "signature-spliced-from-other-message", body + other_ct[-siglen:]
+                yield "body-spliced-from-other-message", other_ct[:-siglen] + sig
+
+    def g_tamper(self, sc, t, r, case, other_ct):
+        optv, ct = t["optv"], t["ct"]
+        for bit in range(len(optv) * 8):
+            self.g_settle(t, "group_tamper_bitflip_option", "flip-option-bit", option_field_of_byte(t["opt"], optv, bit // 8) + (".bit%d" % (bit % 8) if bit < 8 else ""), flip(optv, bit), ct, case)
+        for k, (bit, region) in enumerate(self.g_payload_bits(r, t)):
+            self.g_settle(t, "group_tamper_bitflip_payload", "flip-payload-bit", region, optv, flip(ct, bit), case, hows=("direct", "dispatch") if k % 16 == 0 else ("direct",))
+        for name, ov, c2 in self.g_option_edits(r, t, sc):
+            self.g_settle(t, "group_tamper_field", name, "option", ov, c2, case)
+        for k in range(len(optv)):
+            self.g_settle(t, "group_tamper_field", "option-truncated", option_field_of_byte(t["opt"], optv, k), optv[:k], ct, case)
+        self.g_settle(t, "group_tamper_field", "option-removed", "option", None, ct, case)
+        for name, c2 in self.g_payload_edits(r, t, other_ct):
+            self.g_settle(t, "group_tamper_field", name, "payload", optv, c2, case, hows=("direct",))
+        self.g_settle(t, "group_tamper_field", "flip-both", "option+payload", flip(optv, r.randrange(len(optv) * 8)), flip(ct, r.randrange(len(ct) * 8)), case)
+        if t["mode"] == "deterministic" and t["is_request"]:
+            base = t["base"]
+            rh = self.rc.opt1(base, REQUEST_HASH)
+            rest = tuple((n, v) for n, v in base.options if n != REQUEST_HASH)
+            edits = [("request-hash-removed", rest), ("request-hash-emptied", rest + ((REQUEST_HASH, b""),)), ("request-hash-truncated", rest + ((REQUEST_HASH, rh[:-1]),)),
+                     ("request-hash-extended", rest + ((REQUEST_HASH, rh + b"\0"),)), ("request-hash-zeroed", rest + ((REQUEST_HASH, b"\0" * len(rh)),))]
+            if sc.get("other_request_hash") not in (None, rh):
+                edits.append(("request-hash-of-another-request", rest + ((REQUEST_HASH, sc["other_request_hash"]),)))
+            for bit in sorted({0, 7, 8, len(rh) * 8 - 1} | {r.randrange(len(rh) * 8) for _ in range(12)}):
+                edits.append(("flip-request-hash-bit", rest + ((REQUEST_HASH, flip(rh, bit)),)))
+            for name, options in edits:
+                self.g_settle(t, "group_tamper_field", name, "request-hash", optv, ct, case, base=base._replace(options=options))
+
+    # -- other members, other groups, other keys ---------------------------------------------------------------
+    def g_third_member(self, sc, t, groups, rid_third, case):
+        """Group mode is readable by every member: the third member must obtain the same message (clause 1);
+        pairwise mode is for one member only: the third member is a foreign context (clause 4)."""
+        rep = self.rep
+        G3 = groups[sc["ti"]]
+        m = self.g_wire(t["base"], t["optv"], t["ct"])
+        if m is None or (not t["is_request"] and rid_third is None):
+            return
+        t3 = dict(t, recv_group=G3, reset=[G3], receiver_rid=rid_third if not t["is_request"] else None)
+        try:
+            ctx = self.g_aspect(G3, t["recv_recipient_id"], t["mode"])
+        except Exception as e:
+            rep.violation("group/third-member/aspect-raises/" + type(e).__name__, "a member cannot create its %s mode aspect for another member" % t["mode"], dict(t["where"], tb=rep.exception_witness(e)), case)
+            return None
+        outcome, detail, _c, rid_out = self.g_run(t3, m, "given", ctx)
+        rep.monitor("group_third_member")
+        rep.case((t["sig"], "third-member", outcome), nontrivial=True)
+        w = dict(t["where"], third_member=sc["members"][sc["ti"]]["id"].hex(), option=t["optv"].hex(), payload=t["ct"][:120].hex())
+        if outcome == "escape":
+            rep.violation("group/third-member/escape-%s/%s-mode" % (type(detail).__name__, t["mode"]), "unprotection at a third member let %s escape" % type(detail).__name__, dict(w, tb=rep.exception_witness(detail)), case)
+        elif t["mode"] in ("group", "deterministic"):  # protected with keys every member can derive
+            if outcome != "accepted" or detail != t["genuine"]:
+                rep.violation("group/roundtrip/third-member-cannot-read-%s-mode-%s" % (t["mode"], t["label"]), "a group mode message is not unprotected to the original by another member of the group", dict(w, outcome=outcome, detail=repr(detail)[:300]), case)
+        elif outcome == "accepted":
+            rep.violation("group/foreign/accepted/pairwise-mode-read-by-third-member", "a pairwise mode %s verified under the pairwise keys of a member it was not protected for" % t["label"], dict(w, got=repr(detail)[:300]), case)
+        return rid_out if outcome == "accepted" else None
+
+    def g_foreign_variants(self, r, sc, t):
+        """-> (name, receiving context) for contexts that do not match the sender's."""
+        ref = self.ref
+        gp, kind, ri, si = sc["gp"], sc["kind"], t["ri"], t["si"]
+        sender_id, mode = t["recv_recipient_id"], t["mode"]
+        A = lambda G: self.g_aspect(G, sender_id, mode)
+        yield "master-secret-bit", lambda: A(self.g_group(sc, ri, gp._replace(secret=bytes([gp.secret[0] ^ 1]) + gp.secret[1:])))
+        yield "master-salt-changed", lambda: A(self.g_group(sc, ri, gp._replace(salt=(gp.salt or b"") + b"x")))
+        yield "group-id-other-same-keys", lambda: A(self.g_group(sc, ri, gp._replace(group_id=sc["other_group_id"])))
+        yield "another-group-same-member-ids", lambda: A(self.g_group(sc, ri, gp._replace(group_id=sc["other_group_id"], secret=rbytes(r, 16), salt=rbytes(r, 8))))
+        yield "group-manager-credential-other", lambda: A(self.g_group(sc, ri, gp._replace(gm_cred=gp.gm_cred + b"x")))
+        if isinstance(si, int):
+            other = self.g_keypair(r, kind)
+            yield "sender-credential-substituted", lambda: A(self.g_group(sc, ri, creds={si: other["cred"]}))
+        yield "hash-function-other", lambda: A(self.g_group(sc, ri, gp._replace(hashname="sha384" if gp.hashname == "sha256" else "sha256")))
+        if mode == "group":
+            nlen = ref.ENC_ALGS[gp.alg_group_enc][3]
+            same = [a for a in self.algs + self.genc_extra if a != gp.alg_group_enc and ref.ENC_ALGS[a][3] == nlen]
+            if same:
+                alt = r.choice(same)
+                yield "group-encryption-algorithm-other", lambda: A(self.g_group(sc, ri, gp._replace(alg_group_enc=alt)))
+        else:
+            nlen = ref.ENC_ALGS[gp.alg_aead][3]
+            same = [a for a in self.algs if a != gp.alg_aead and ref.ENC_ALGS[a][3] == nlen]
+            if same:
+                alt = r.choice(same)
+                yield "aead-algorithm-other", lambda: A(self.g_group(sc, ri, gp._replace(alg_aead=alt)))
+            if mode == "pairwise":
+                mine = self.g_keypair(r, kind)
+                yield "receiver-key-pair-other", lambda: A(self.g_group(sc, ri, me=mine))
+
+        def plain():
+            p = ref.Params(gp.alg_aead, gp.hashname, gp.secret, gp.salt, gp.group_id)
+            return self.ctx(p, t["recv_sender_id"], sender_id)
+
+        yield "non-group-context-same-ids-and-secret", plain
+        if gp.alg_group_enc != gp.alg_aead and gp.alg_group_enc in self.algs:
+
+            def plain2():
+                p = ref.Params(gp.alg_group_enc, gp.hashname, gp.secret, gp.salt, gp.group_id)
+                return self.ctx(p, t["recv_sender_id"], sender_id)
+
+            yield "non-group-context-same-ids-group-encryption-algorithm", plain2
+
+    def g_foreign(self, sc, t, r, case):
+        rep = self.rep
+        m = self.g_wire(t["base"], t["optv"], t["ct"])
+        if m is None:
+            return
+        for name, make in self.g_foreign_variants(r, sc, t):
+            try:
+                ctx = make()
+            except Exception as e:
+                rep.count("harness_foreign_ctx_failed/%s/%s" % (name, type(e).__name__))
+                continue
+            G = getattr(ctx, "groupcontext", None)
+            t2 = dict(t, reset=[G] if G is not None else [])
+            outcome, detail, _c, _rid = self.g_run(t2, m, "given", ctx)
+            rep.monitor("group_foreign_context")
+            rep.case((t["sig"], "foreign", name, outcome), nontrivial=True)
+            w = dict(t["where"], foreign_variant=name, option=t["optv"].hex(), payload=t["ct"][:120].hex(), foreign_context=repr(ctx)[:200])
+            if outcome == "escape":
+                rep.violation("group/foreign/escape-%s/%s" % (type(detail).__name__, name), "unprotection under another context's keys let %s escape" % type(detail).__name__, dict(w, tb=rep.exception_witness(detail)), case)
+            elif outcome == "accepted":
+                rep.violation("group/foreign/accepted/%s/%s-mode" % (name, t["mode"]), "a %s mode %s verified under a context that does not match the sender's (%s) and yielded a message" % (t["mode"], t["label"], name), dict(w, got=repr(detail)[:400]), case)
+            elif outcome == "not-protected":
+                rep.violation("group/foreign/not-a-protected-message", "NotAProtectedMessage although an OSCORE option is present", w, case)
+            else:
+                rep.count("rejected/" + type(detail).__name__)
+
+    # -- binding of group responses to their request -------------------------------------------------------------
+    def g_binding(self, sc, r, case):
+        """Requests of two members x two Partial IVs to the same server; every response (group / pairwise mode,
+        request nonce re-used / own Partial IV) is verified with the identifiers of every request of the pool."""
+        rep, rc, ref = self.rep, self.rc, self.ref
+        members, si = sc["members"], sc["si"]
+        req_mode = sc["flow"][0]
+        sid = members[si]["id"]
+        s1 = sc["seq_c"]
+        s2 = r.choice([s for s in SEQS if s != s1])
+        Gs = self.g_group(sc, si)
+        pool = []
+        for ci in (sc["ci"], sc["ti"]):
+            Gc = self.g_group(sc, ci)
+            reqctx = Gc if req_mode == "group" else Gc.pairwise_for(sid)
+            for seq in (s1, s2):
+                Gc.sender_sequence_number = seq
+                spec = {"code": 1, "opts": [(11, marker(r, "B"), STRING)], "outer": [], "observe": None, "payload": b"", "markers": []}
+                try:
+                    outer, rid_c = reqctx.protect(self.build(spec))
+                    wire = self.to_wire(outer, 0, sc["mid"], sc["token"])
+                    m = self.Message.decode(wire)
+                    for w in Gs.recipient_replay_windows.values():
+                        w.initialize_empty()
+                    asp = Gs.get_oscore_context_for(self.o.verify_start(m))
+                    _inner, rid_s = asp.unprotect(m)
+                except Exception as e:
+                    rep.count("group_binding_pool_setup_failed/" + type(e).__name__)
+                    return
+                pool.append({"ci": ci, "Gc": Gc, "reqctx": reqctx, "asp": asp, "rid_c": rid_c, "rid_s": rid_s, "kid": members[ci]["id"], "piv": rid_c.partial_iv})
+        for e in pool:
+            for resp_mode in ("group", "pairwise"):
+                rid = self.copy.copy(e["rid_s"])
+                sender = Gs if resp_mode == "group" else (e["asp"].context_for_response() if req_mode == "group" else Gs.pairwise_for(e["kid"]))
+                for nonce_mode in ("reuse", "ownpiv"):
+                    body = marker(r, "RESP").encode()
+                    spec = {"code": 69, "opts": [(12, 0, UINT)], "outer": [], "observe": None, "payload": body, "markers": []}
+                    try:
+                        Gs.sender_sequence_number = r.choice(SEQS)
+                        outer, _ = sender.protect(self.build(spec), rid)  # the first call re-uses the request nonce, the second draws an own Partial IV
+                        wire = self.to_wire(outer, 2, sc["mid"], sc["token"])
+                        base = rc.parse(wire)
+                        optv = rc.opt1(base, 9)
+                        has_piv = ref.parse_option(optv, group=True).piv is not None
+                    except Exception as ex:
+                        rep.count("group_binding_response_setup_failed/" + type(ex).__name__)
+                        continue
+                    if has_piv != (nonce_mode == "ownpiv"):
+                        rep.count("group_binding_nonce_mode_unexpected/" + nonce_mode)
+                    want = self.expected_inner(spec)
+                    m = self.g_wire(base, optv, base.payload)
+                    if m is None:
+                        continue
+                    for f in pool:
+                        t = {"is_request": False, "receiver_rid": f["rid_c"], "reqctx": f["reqctx"], "recv_group": f["Gc"], "reset": [f["Gc"]]}
+                        outcome, detail, _ctx, _rid = self.g_run(t, m, "dispatch")
+                        diff = "same-request" if f is e else "-and-".join(x for x, c in (("other-kid", f["kid"] != e["kid"]), ("other-piv", f["piv"] != e["piv"])) if c)
+                        rep.case(("group-binding", sc["kind"], req_mode, resp_mode, len(e["kid"]), len(f["kid"]), len(e["piv"]), len(f["piv"]), nonce_mode, diff, outcome), nontrivial=True)
+                        w = dict(self.g_describe(sc, "%s mode response (%s nonce) to a %s mode request" % (resp_mode, nonce_mode, req_mode)), option=optv.hex(), payload=base.payload[:160].hex(),
+                                 answered_request=dict(kid=e["kid"].hex(), piv=e["piv"].hex()), verified_with_request=dict(kid=f["kid"].hex(), piv=f["piv"].hex()), verifying_member=f["kid"].hex())
+                        if f is e:
+                            rep.monitor("group_binding_control")
+                            if outcome != "accepted" or detail != want:
+                                rep.violation("group/binding/own-request-rejected/%s-to-%s/%s" % (req_mode, resp_mode, nonce_mode), "a response does not verify with the identifiers of the request it answers", dict(w, outcome=outcome, detail=repr(detail)[:300]), case)
+                            continue
+                        rep.monitor("group_binding")
+                        if outcome == "accepted":
+                            rep.violation("group/binding/accepted-with-foreign-request/%s-mode-response/%s-nonce/%s" % (resp_mode, nonce_mode, diff), "a response protected for one request verified with the identifiers of another request (%s)" % diff, dict(w, got=repr(detail)[:300]), case)
+                        elif outcome != "rejected":
+                            rep.violation("group/binding/escape-%s/%s-mode-response" % (type(detail).__name__, resp_mode), "cross-paired verification raised %s" % type(detail).__name__, dict(w, tb=rep.exception_witness(detail) if isinstance(detail, BaseException) else None), case)
+
+    def g_binding_deterministic(self, sc, reqctx, r, case):
+        """All deterministic requests carry the same kid and Partial IV; what identifies the request a response
+        answers is its Request-Hash (part of the request identifiers handed from request to response processing).
+        Different requests of two members; every (group mode) response is verified with the identifiers of every request."""
+        rep, rc = self.rep, self.rc
+        members, si = sc["members"], sc["si"]
+        Gs = self.g_group(sc, si)
+        pool = []
+        for k, ci in enumerate((sc["ci"], sc["ci"], sc["ti"])):
+            Gc = self.g_group(sc, ci)
+            D = Gc.for_sending_deterministic_requests(sc["det"]["id"], None if k else reqctx.target_server)
+            spec = {"code": r.choice([1, 5]), "opts": [(11, marker(r, "D%d" % k), STRING)], "outer": [], "observe": None, "payload": b"", "markers": []}
+            try:
+                outer, rid_c = D.protect(self.build(spec))
+                m = self.Message.decode(self.to_wire(outer, 0, sc["mid"], sc["token"]))
+                asp = Gs.get_oscore_context_for(self.o.verify_start(m))
+                _inner, rid_s = asp.unprotect(m)
+            except Exception as e:
+                rep.count("group_binding_pool_setup_failed/" + type(e).__name__)
+                return
+            pool.append({"Gc": Gc, "reqctx": D, "asp": asp, "rid_c": rid_c, "rid_s": rid_s, "hash": bytes(rid_c.request_hash), "member": members[ci]["id"]})
+        # deterministic requests are defined for safe methods; what happens to an unsafe one is counted, not judged
+        try:
+            outer, _ = pool[0]["reqctx"].protect(self.build({"code": r.choice([2, 3, 4]), "opts": [(11, "unsafe", STRING)], "outer": [], "observe": None, "payload": b"x", "markers": []}))
+            m = self.Message.decode(self.to_wire(outer, 0, sc["mid"], sc["token"]))
+            Gs.get_oscore_context_for(self.o.verify_start(m)).unprotect(m)
+            rep.count("group_deterministic_unsafe_method/accepted")
+        except Exception as e:
+            rep.count("group_deterministic_unsafe_method/" + type(e).__name__)
+        for e in pool:
+            body = marker(r, "RESP").encode()
+            spec = {"code": 69, "opts": [(12, 0, UINT)], "outer": [], "observe": None, "payload": body, "markers": []}
+            try:
+                Gs.sender_sequence_number = r.choice(SEQS)
+                outer, _ = e["asp"].context_for_response().protect(self.build(spec), self.copy.copy(e["rid_s"]))
+                base = rc.parse(self.to_wire(outer, 2, sc["mid"], sc["token"]))
+                optv = rc.opt1(base, 9)
+            except Exception as ex:
+                rep.count("group_binding_response_setup_failed/" + type(ex).__name__)
+                continue
+            want = self.expected_inner(spec)
+            m = self.g_wire(base, optv, base.payload)
+            if m is None:
+                continue
+            for f in pool:
+                t = {"is_request": False, "receiver_rid": f["rid_c"], "reqctx": f["reqctx"], "recv_group": f["Gc"], "reset": [f["Gc"]]}
+                outcome, detail, _ctx, _rid = self.g_run(t, m, "dispatch")
+                diff = "same-request" if f is e else "other-request-hash"
+                rep.case(("group-binding-deterministic", sc["kind"], diff, outcome), nontrivial=True)
+                w = dict(self.g_describe(sc, "group mode response to a deterministic request"), option=optv.hex(), payload=base.payload[:160].hex(),
+                         answered_request=dict(request_hash=e["hash"].hex()), verified_with_request=dict(request_hash=f["hash"].hex()), verifying_member=f["member"].hex())
+                if f is e:
+                    rep.monitor("group_binding_control")
+                    if outcome != "accepted" or detail != want:
+                        rep.violation("group/binding/own-request-rejected/deterministic-to-group", "a response does not verify with the identifiers of the request it answers", dict(w, outcome=outcome, detail=repr(detail)[:300]), case)
+                    continue
+                rep.monitor("group_binding")
+                if outcome == "accepted":
+                    rep.violation("group/binding/accepted-with-foreign-request/deterministic/other-request-hash", "a response protected for one deterministic request verified with the identifiers of another one", dict(w, got=repr(detail)[:300]), case)
+                elif outcome != "rejected":
+                    rep.violation("group/binding/escape-%s/deterministic" % type(detail).__name__, "cross-paired verification raised %s" % type(detail).__name__, dict(w, tb=rep.exception_witness(detail) if isinstance(detail, BaseException) else None), case)
+
+    # -- one group scenario ------------------------------------------------------------------------------------------
+    def g_ids(self, r, maxid, n):
+        ids = set()
+        if r.random() < 0.5:
+            ids.add(b"")
+        while len(ids) < n:
+            cand = rbytes(r, r.randrange(0, maxid + 1))
+            if ids and maxid >= 2 and r.random() < 0.35:  # IDs sharing a prefix / differing in the last bit or in length
+                base = r.choice(sorted(ids))
+                k = r.random()
+                if k < 0.4 and len(base) < maxid:
+                    cand = base + bytes([r.choice([0, 1, 255])])
+                elif k < 0.7 and base:
+                    cand = base[:-1] + bytes([base[-1] ^ (1 << r.randrange(8))])
+                elif len(base) < maxid:
+                    cand = b"\0" + base
+            ids.add(cand)
+        out = sorted(ids)
+        r.shuffle(out)
+        return out
+
+    def g_scenario(self, seed, gi, case):
+        rep, ref = self.rep, self.ref
+        r = random.Random("c11g/%d/%d" % (seed, gi))
+        j = gi + gi // 16  # shard k runs gi = k, k + 16, ...: let every shard walk through all combinations
+        kind = self.gkinds[j % len(self.gkinds)]
+        flow = GROUP_FLOWS[(j // 2) % len(GROUP_FLOWS)]
+        alg_aead = self.algs[(j // (2 * len(GROUP_FLOWS))) % len(self.algs)] if r.random() < 0.7 else r.choice(self.algs)
+        k = r.random()
+        alg_group_enc = alg_aead if k < 0.4 else (r.choice(self.algs) if k < 0.8 or not self.genc_extra else r.choice(self.genc_extra))
+        maxid = min(ref.ENC_ALGS[alg_aead][3], ref.ENC_ALGS[alg_group_enc][3]) - 6
+        group_id = rbytes(r, r.choice([1, 1, 2, 4, 8, 8, 0]))
+        other_gid = rbytes(r, len(group_id) or 1)
+        if other_gid == group_id:
+            other_gid = bytes([other_gid[0] ^ 1]) + other_gid[1:]
+        hashname = "sha256" if r.random() < 0.85 else r.choice(["sha384", "sha512"])
+        gp = ref.GroupParams(alg_aead, alg_group_enc, kind, hashname, rbytes(r, r.choice([16, 16, 32, 64, 1])), r.choice([None, b"", rbytes(r, 8), rbytes(r, 8), rbytes(r, 32)]), group_id, rbytes(r, r.choice([0, 16, 40])))
+        n = r.choice([3, 3, 4])
+        ids = self.g_ids(r, maxid, n)
+        lib_member = r.randrange(n) if r.random() < 0.25 else None
+        members = []
+        for i, ident in enumerate(ids):
+            kp = self.g_keypair(r, kind, lib_generated=(i == lib_member))
+            kp["id"] = ident
+            members.append(kp)
+        order = list(range(n))
+        r.shuffle(order)
+        ci, si, ti = order[:3]
+        det = None
+        if flow[0] == "deterministic":
+            for _ in range(50):
+                det_id = rbytes(r, r.randrange(0, maxid + 1))
+                if det_id not in ids:
+                    # the deterministic client is no member: it has no key pair, its credential in the AAD is empty
+                    det = {"id": det_id, "cred": b"", "pub": None, "refpriv": b"", "priv": None, "origin": "deterministic client"}
+                    break
+            else:
+                rep.count("harness_no_deterministic_client_id")
+                return
+        seq_c = SEQS[(gi // 3) % len(SEQS)] if r.random() < 0.7 else r.choice(SEQS + [r.randrange(2**40 - 1)])
+        seq_s = SEQS[(gi // 5) % len(SEQS)] if r.random() < 0.7 else r.choice(SEQS)
+        if flow[0] == "deterministic":
+            seq_s = min(seq_s, 2**40 - 3)  # both responses to a deterministic request draw an own Partial IV
+        ss = self.gss[kind]
+        sc = {
+            "gp": gp, "kind": kind, "members": members, "flow": flow, "ci": ci, "si": si, "ti": ti, "seq_c": seq_c, "mid": r.randrange(65536), "token": rbytes(r, r.randrange(0, 9)),
+            "maxid": maxid, "other_group_id": other_gid, "det": det,
+            # the value of the Pairwise Key Agreement Algorithm in the AAD's algorithms array: ECDH-SS + HKDF-256 (-27); aiocoap uses its
+            # ECDSA class for P-256 groups, whose COSE value is ES256's (-7, marked FIXME in the source) - either is accepted here
+            "pairwise_values": [ref.ECDH_SS_HKDF_256] + ([ss.value] if ss.value != ref.ECDH_SS_HKDF_256 else []),
+        }
+        rep.seen("group_flows", "%s/%s->%s" % (kind, flow[0], flow[1]))
+        rep.seen("group_alg_pairs", "%s+%s" % (alg_aead, alg_group_enc))
+        rep.seen("group_id_lengths", "gid%d/" % len(group_id) + ",".join(str(len(m["id"])) for m in members))
+        try:
+            groups = [self.g_group(sc, i) for i in range(n)]
+        except Exception as e:
+            rep.violation("group/setup/SimpleGroupContext-raises/" + type(e).__name__, "SimpleGroupContext could not be set up for ordinary members", dict(self.g_describe(sc, "setup"), tb=rep.exception_witness(e)), case)
+            return
+        Gc, Gs = groups[ci], groups[si]
+        Gc.sender_sequence_number, Gs.sender_sequence_number = seq_c, seq_s
+        sid, cid = members[si]["id"], members[ci]["id"]
+        try:
+            if flow[0] == "deterministic":
+                reqctx = Gc.for_sending_deterministic_requests(det["id"], r.choice([None, sid]))
+            else:
+                reqctx = Gc if flow[0] == "group" else Gc.pairwise_for(sid)
+        except Exception as e:
+            rep.violation("group/setup/pairwise_for-raises/" + type(e).__name__, "pairwise_for() / for_sending_deterministic_requests() raised for a member of the group", dict(self.g_describe(sc, "setup"), tb=rep.exception_witness(e)), case)
+            return
+        req_spec = gen_message(r, True, gi)
+        if flow[0] == "deterministic":
+            req_spec["code"] = r.choice([1, 5])  # deterministic requests are defined for safe methods only (unprotect refuses others by design)
+        t1 = self.g_protect_and_check(sc, "request", flow[0], reqctx, det if det is not None else ci, si, req_spec, None, None, None, Gs, case, mtype=r.choice([0, 1]))
+        if gi < 2 * 16:
+            rep.sample({"group": "%s, %s + %s, group id %s" % (kind, alg_aead, alg_group_enc, group_id.hex()), "member_ids": [m["id"].hex() for m in members], "flow": "%s request -> %s response" % flow, "seq": seq_c,
+                        "request": repr({k: req_spec[k] for k in ("code", "opts", "outer", "observe")})[:300], "payload_len": len(req_spec["payload"]), "wire": None if t1 is None else t1["wire"][:100].hex()})
+        if t1 is None or t1["genuine"] is None or t1["rid_in"] is None:
+            return
+        targets = [t1]
+        rid_third = self.g_third_member(sc, t1, groups, None, case)
+        rid_s = t1["rid_in"]
+        if rid_s.can_reuse_nonce is not True and det is None:
+            rep.count("group_request_id_not_reusable")
+        try:
+            if det is not None:
+                resp_ctx = t1["receiver"].context_for_response()
+                if resp_ctx is not Gs:
+                    rep.count("group_context_for_response_class/" + type(resp_ctx).__name__)
+                    resp_ctx = Gs
+            elif flow[1] == "group":
+                resp_ctx = Gs
+            else:
+                resp_ctx = t1["receiver"].context_for_response()
+                if type(resp_ctx).__name__ != "_PairwiseContextAspect":
+                    rep.count("group_context_for_response_class/" + type(resp_ctx).__name__)
+                    resp_ctx = Gs.pairwise_for(cid)
+        except Exception as e:
+            rep.violation("group/setup/context_for_response-raises/" + type(e).__name__, "context_for_response() raised after a genuine request", dict(self.g_describe(sc, "setup"), tb=rep.exception_witness(e)), case)
+            return
+        # the first response re-uses the request's nonce, the second draws an own Partial IV; a deterministic request's nonce is never re-used
+        for label in ("response-reuse", "response-ownpiv") if det is None else ("response-ownpiv", "response-ownpiv"):
+            spec = gen_message(r, False, gi + len(targets))
+            t = self.g_protect_and_check(sc, label, flow[1], resp_ctx, si, ci, spec, rid_s, t1["rid_out"], reqctx, Gc, case, mtype=r.choice([2, 0, 1]))
+            if t is None:
+                continue
+            if (t["opt"].piv is not None) != (label == "response-ownpiv"):
+                rep.count("group_nonce_mode_unexpected/" + label)
+            if t["genuine"] is not None:
+                targets.append(t)
+                # the third member knows the request identifiers from having read the (group mode) request, or - for a
+                # pairwise request - from the kid and Partial IV visible in its OSCORE option (the client's identifiers here)
+                self.g_third_member(sc, t, groups, rid_third if rid_third is not None else t1["rid_out"], case)
+        try:
+            spec2 = gen_message(r, True, gi + 7)
+            if det is not None:
+                spec2["code"] = 1
+            o2, _ = reqctx.protect(self.build(spec2))
+            other_req_ct = bytes(o2.payload)
+            if det is not None:
+                sc["other_request_hash"] = bytes(o2.opt.request_hash)
+        except Exception:
+            other_req_ct = None
+        for t in targets:
+            other = other_req_ct if t["is_request"] else next((x["ct"] for x in targets[1:] if x is not t), None)
+            self.g_tamper(sc, t, r, case, other)
+            self.g_foreign(sc, t, r, case)
+        if det is None:
+            self.g_binding(sc, r, case)
+        else:
+            self.g_binding_deterministic(sc, reqctx, r, case)
+
     # -- fixed, deterministic witnesses on the RFC 8613 Appendix C messages ------------------------------
     def fixed(self, case):
         rep, rc, ref = self.rep, self.rc, self.ref
@@ -971,3 +1852,23 @@ def run_shard(shard, rep, only=None):
         if only is not None and only != case:
             continue
         eng.scenario(shard["seed"] - shard["index"], gi, case)
+    # ---- members of an OSCORE group
+    genv = oscore_env.group_env()
+    for note in genv["notes"]:
+        rep.seen("group_environment", note)
+    try:
+        oscore_c11ref.g_selftest()
+    except Exception as e:
+        rep.inconc("self-test of the Group OSCORE part of the reference failed: %r" % (e,))
+        return
+    logging.getLogger().setLevel(logging.CRITICAL + 1)  # _DeterministicUnprotectProtoAspect logs through the root logger
+    eng.g_probe(genv)
+    if not eng.gkinds:
+        rep.inconc("no countersignature algorithm of oscore.algorithms_countersign is usable here: group part not evaluated")
+        return
+    for i in range(shard.get("gn", 0)):
+        gi = shard["index"] + shard["of"] * i
+        case = ["grp", gi]
+        if only is not None and only != case:
+            continue
+        eng.g_scenario(shard["seed"] - shard["index"], gi, case)
